@@ -212,6 +212,34 @@ def level_part(check):
             check.violation("typeshare --target-os %s generated %s, the documented rule gives %s" % (tos, sorted(got), sorted(want)),
                             case={"source": src, "target_os": tos}, impl={"rc": r["rc"], "output": text}, failing_input=True)
             return
+    # "without --target-os nothing is filtered": also when a configuration file is around that mentions target systems (in the
+    # working directory, in a parent directory, given by -c, or written by an earlier `-g --target-os ..` run), and the option can be
+    # given as one list or repeated
+    everything = {"OnlyIos", "not_android", "Apple"}
+    scenarios = [("toml-in-cwd", 'target_os = ["android"]\n', None, []), ("toml-in-parent", 'target_os = ["android"]\n', "parent", []),
+                 ("toml-by-c", 'target_os = ["android"]\n[swift]\nprefix = ""\n', "-c", []),
+                 ("written-by-g", None, "-g", []), ("repeated-option", None, None, ["--target-os", "macos", "--target-os", "android"])]
+    for name, toml, how, extra in scenarios:
+        with Scratch() as sc:
+            sc.write("w/p/src/lib.rs", src)
+            cfg_args = []
+            if toml is not None:
+                sc.write({"parent": "w/typeshare.toml", "-c": "elsewhere/cfg.toml"}.get(how, "w/p/typeshare.toml"), toml)
+                if how == "-c":
+                    cfg_args = ["-c", sc.path("elsewhere/cfg.toml")]
+            if how == "-g":
+                run_cli(["-g", "--target-os", "android", sc.path("w/p")], cwd=sc.path("w/p"))
+            r = run_cli(["--lang", "typescript", "-o", sc.path("o.ts")] + cfg_args + [sc.path("w/p")] + extra, cwd=sc.path("w/p"))
+            text = open(sc.path("o.ts")).read() if os.path.exists(sc.path("o.ts")) else ""
+        got = {w for w in everything if w in text}
+        want = {"Apple"} if extra else everything
+        check.saw(("cli-config", name), nontrivial=True)
+        check.count("cli-target-os-" + name)
+        if r["rc"] != 0 or got != want:
+            check.violation("typeshare %s (%s): generated %s, the documented rule gives %s" % (" ".join(extra) or "without --target-os", name,
+                            sorted(got), sorted(want)), case={"source": src, "scenario": name, "typeshare.toml": toml, "options": extra},
+                            impl={"rc": r["rc"], "stderr": r["err"][-600:], "output": text}, failing_input=True)
+            return
 
 
 _run_l0 = run
